@@ -106,9 +106,9 @@ __CPROVER_ensures((SB_TAKES(SB_C0, g_m0) && OLD(g_qa.n) == 0 && SUB_FULL_OLD(SB_
 #define SR_V0  LMQ_VIEW(&SR_C->lmq, 0)
 static void sub0_ctx_recv(void *arg, nni_aio *aio)
 __CPROVER_requires((SUB_IS_C0(SR_C) || (g_nc == 2 && arg == g_c1)) && VP_NO_LOCK_HELD)
-__CPROVER_requires(SUB_LMQ_PRE(&SR_C->lmq) && SR_C->lmq.lmq_cap >= 1)
+__CPROVER_requires(SUB_LMQ_PRE(&SR_C->lmq))
 /* queued messages are unshared (established by sub0_recv_cb: delivered message has one reference) */
-__CPROVER_requires(SR_C->lmq.lmq_len == 0 || (SUB_QUEUED_MSG(SR_V0) && SR_V0->m_refcnt.v == 1 && CH_GHOST_PRE(&SR_V0->m_body) && HDR_GHOST_PRE(SR_V0)))
+__CPROVER_requires(SR_C->lmq.lmq_len == 0 || (SUB_QUEUED_MSG(SR_V0) && SR_V0->m_refcnt.v == 1))
 __CPROVER_requires(__CPROVER_is_fresh(aio, sizeof(nni_aio)) && VP_AIOQS_PRE && VP_AIO_NOT_QUEUED(aio) && g_qa.n < 8 && g_qb.n < 8)
 __CPROVER_requires(SUB_IS_C0(SR_C) ==> SUB_POLL_INV)
 __CPROVER_assigns(SR_C->lmq.lmq_len > 0: *SR_V0)
